@@ -37,7 +37,7 @@ def joinWith (sep : Nat) : List Str → Str
 
 def takeDigits : Str → Str × Str
   | [] => ([], [])
-  | c :: cs => if isDigit c then let (a, b) := takeDigits cs; (c :: a, b) else ([], c :: cs)
+  | c :: cs => if isDigit09 c then let (a, b) := takeDigits cs; (c :: a, b) else ([], c :: cs)
 
 def hasDup : List Nat → Bool
   | [] => false
